@@ -186,6 +186,10 @@ def coexist_worker(ctx, job):
             continue
         for dmg in ref.ALGOS:
             p = os.path.join(cache, ref.content_rel(sris[dmg]))
+            if not os.path.isfile(p):
+                V.violation(res, "coexist:content-file-not-at-its-address", "no content file at %s after a successful write under %s" % (ref.content_rel(sris[dmg]), dmg),
+                            {"flavour": flavour, "side": side, "n": n, "algo": dmg})
+                continue
             with open(p, "r+b") as fh:
                 fh.write(bytes([data[0] ^ 1]))
             for a in ref.ALGOS:
